@@ -34,7 +34,10 @@ Basics == {B("int"), B("string"), B("bool"), B("float64"), B("uint8"), B("comple
 \* a struct with embedded fields
 FixLeaves == {Leaf("MyInt"), Leaf("MyString"), Leaf("SL"), Leaf("ext.SE"), Leaf("ext2.SE2"), Leaf("Rec"), Leaf("Emb"),
               Leaf("time.Duration"), Leaf("time.Time"),
-              Leaf("Both")}   \* local struct with fields from BOTH packages called ext: the generated file must alias one of them   \* a named basic and a struct (unexported fields, own Equal/Compare methods) from the standard library
+              Leaf("Both"),
+              \* type aliases (go/types materialises them as their own node since Go 1.23): of a local struct,
+              \* of a basic type, of an imported struct with unexported fields
+              Leaf("AliasSL"), Leaf("AliasInt"), Leaf("AliasExt")}   \* local struct with fields from BOTH packages called ext: the generated file must alias one of them   \* a named basic and a struct (unexported fields, own Equal/Compare methods) from the standard library
 Leaves == Basics \cup FixLeaves
 
 \* value keys of maps
@@ -69,7 +72,7 @@ HasBad(t) == CASE t.k = "bad" -> TRUE
 RECURSIVE Comparable(_)
 Comparable(t) ==
   CASE t.k = "basic" -> TRUE
-    [] t.k = "leaf" -> t.n \in {"MyInt", "MyString", "SL", "KeyStruct", "time.Duration", "time.Time"}
+    [] t.k = "leaf" -> t.n \in {"MyInt", "MyString", "SL", "KeyStruct", "time.Duration", "time.Time", "AliasSL", "AliasInt"}
     [] t.k = "ptr" -> TRUE
     [] t.k \in {"slice", "map"} -> FALSE
     [] t.k \in {"array", "wrap", "named"} -> Comparable(t.e)
@@ -79,7 +82,7 @@ Comparable(t) ==
 \* an imported struct with unexported fields somewhere inside: GoString cannot rebuild it outside its package
 RECURSIVE HasExtPrivate(_)
 HasExtPrivate(t) ==
-  CASE t.k = "leaf" -> t.n \in {"ext.SE", "ext2.SE2", "time.Time", "Both"}
+  CASE t.k = "leaf" -> t.n \in {"ext.SE", "ext2.SE2", "time.Time", "Both", "AliasExt"}
     [] t.k \in {"ptr", "slice", "array", "wrap", "named"} -> HasExtPrivate(t.e)
     [] t.k = "map" -> HasExtPrivate(t.key) \/ HasExtPrivate(t.e)
     [] OTHER -> FALSE
